@@ -350,7 +350,7 @@ func main() {
 	xplor.Main(xplor.Check{
 		ID:    "C03",
 		Level: "exploration",
-		Rule:  "every block of <= 2 transactions over the 40-letter alphabet x pre-state {genesis, warm} x 5 (thorough 40) network configurations. Per tx, by prefix differential on the real producer path (block with txs[:i] vs txs[:i+1], full state dumps): rejected => state, state root and receipts root identical to the block without it; ERROR receipt => only payer balance (- recorded fee), sender nonce (= tx nonce) and the coinbase change, no storage/code change, no events from v3; applied => nonce consumed, and for plain transfers exact amounts and no third account. Per block: invalid variants (wrong state/receipts/tx root, rejected txs re-inserted, body lacking a committed tx, duplicated tx, foreign signature) delivered to the node must be refused and leave a digest of both stores, best block, state root, DPoS status and orphan pool unchanged. distinct_nontrivial = distinct (net, pre-state, word, outcome vector)",
+		Rule:  "every block of <= 2 transactions over the 41-letter alphabet x pre-state {genesis, warm} x 5 (thorough 40) network configurations. Per tx, by prefix differential on the real producer path (block with txs[:i] vs txs[:i+1], full state dumps): rejected => state, state root and receipts root identical to the block without it; ERROR receipt => only payer balance (- recorded fee), sender nonce (= tx nonce) and the coinbase change, no storage/code change, no events from v3; applied => nonce consumed, and for plain transfers exact amounts and no third account. Per block: invalid variants (wrong state/receipts/tx root, rejected txs re-inserted, body lacking a committed tx, duplicated tx, foreign signature) delivered to the node must be refused and leave a digest of both stores, best block, state root, DPoS status and orphan pool unchanged. distinct_nontrivial = distinct (net, pre-state, word, outcome vector)",
 		Assumptions: []string{
 			"contract execution is the stub VM (storage writes, runtime failure, system failure, gas) driven through the real contract.Execute / executeTx / BlockState snapshot+rollback",
 			"the bad-block cache is not part of 'state, indexes and best block'",
